@@ -80,6 +80,11 @@ def rule_ECONST(ctx, classes=None):
                     continue
                 if not d.is_zero():
                     bad = (v, text)
+            if m == '_es' and bad is None:
+                # the signed eccentricity: negative for prolate ellipsoids, so both signs must occur over the paths
+                vals = {p.env[('this', m)].show() for p in paths if ('this', m) in p.env}
+                if len(vals) < 2 and not any(v.startswith('-') for v in vals) == any(not v.startswith('-') for v in vals):
+                    bad = (paths[0].env[('this', m)], 'sqrt(|e2|) with the sign of f (negative for prolate ellipsoids)')
             res.ob(bad is None, {'constructor': f.q, 'member': m, 'definition': (TABLE.get(m) or (0, 0, '+-sqrt(|e2|)'))[2]}
                    if (bad or nmem % 5 == 1) else None)
             if bad:
